@@ -425,6 +425,12 @@ class World(BaseWorld):
             elif self.cfg["cls"] in ("rigid", "pro") and M.is_snake_deletion(prev, gm):
                 legal = True
                 self.note("step_is_yank")
+            if not legal and self.prop == "C07" and boxes_preserved(prev, gm, True):
+                # C07 does not ask that a step be a SINGLE move (that is C06's clause): a step that only
+                # rearranges boxes and removes caps/cups pairwise is accepted here if it is well-typed
+                # (checked above) and denotes the same morphism (checked below)
+                legal = True
+                self.note("step_compound_accepted")
             if not legal:
                 raise self.vio("illegal-step", "%s is neither one legal interchange%s" % (
                     what, " nor the removal of one valid snake" if self.cfg["cls"] in ("rigid", "pro") else ""),
@@ -560,9 +566,11 @@ class World(BaseWorld):
             raise self.vio("termination", "normal_form did not return within %d line events although "
                            "the stepped trace took %d" % (max(NF_MIN_BUDGET, 30 * lines), lines))
         if connected:
-            if not ended or repeated:
+            if not ended:
                 raise self.vio("termination", "normalisation of a connected diagram %s" % (
-                    "revisits a diagram" if repeated else "does not end within %d steps" % TRACE_CAP))
+                    "keeps revisiting diagrams" if repeated else "does not end within %d steps" % TRACE_CAP))
+            if repeated:
+                self.note("connected_trace_revisits_but_ends")
             if outcome == "NotImplementedError":
                 raise self.vio("termination", "NotImplementedError on a connected diagram")
         if ended and not repeated and outcome != "value":
@@ -591,7 +599,8 @@ class World(BaseWorld):
                 o2 if o2 != "value" else "another diagram"))
         first = next(iter(nf.normalize(left=left)), None)
         if first is not None:
-            raise self.vio("fixed-point", "a normaliser started on a normal form still yields a step")
+            # not demanded by the statement (the fixed point is about normal_form); recorded only
+            self.note("normaliser_on_normal_form_yields_a_step")
         if self.cfg["cls"] in ("rigid", "pro"):
             left_over = [x for x in M.snakes(nm) if x[3]]
             if left_over:
